@@ -7,7 +7,9 @@ RULE = ('storage histories with restarts (with and without close), index removal
         'checks that each append to a *.blob file landed exactly at its end, that no positional write or re-creation '
         'touched a blob file and that the tracked end equals the real file length; byte snapshots of every blob file '
         '(work dir + corrupted dir) are compared after every op (earlier content must be a prefix); query phases must '
-        'issue no write at all; distinct by (cfg line, multiset of (op, outcome class))')
+        'issue no write at all; fault stream: short / failed record appends then further appends (no write may start below a '
+        'blob file\'s physical end); quarantine stream: torn blobs (the highest id included) quarantined at restart, new blobs '
+        'afterwards, a second quarantine (no blob id is ever created twice; quarantined files keep their bytes); distinct by (cfg line, multiset of (op, outcome class))')
 ASSUMPTIONS = ['other processes do not touch the directory', 'truncation is observed through the byte snapshots (the tap sees only operations issued through pearl\'s File type)']
 
 
@@ -33,9 +35,77 @@ def gen_script(rng):
     return '\n'.join(L) + '\n'
 
 
+def gen_fault_script(rng):
+    """Injected I/O failures in the middle of a record append (nothing written / a prefix of the record written),
+    index dump failures, then further appends to the same blob: no later write may start below the physical end
+    of a blob file, and every earlier snapshot stays a prefix."""
+    K = 4
+    L = ['cfg K=4 dup=1 group=2 bloom=none init=eager runtime=%s nomodel=1' % rng.choice(['mt', 'ct']), 'trace on', 'open']
+    seed = 0
+    def w(ln=None):
+        nonlocal seed
+        seed += 1
+        L.append('W %s 5 %s %d %d' % ((seed % 7 + 1).to_bytes(K, 'big').hex(), rng.choice(['-', 'm1']), ln if ln is not None else rng.choice([1, 5, 40, 3000]), seed))
+        L.extend(['snapcheck', 'tracecheck all'])
+    for _ in range(rng.randrange(1, 4)):
+        w()
+    if rng.random() < 0.3:
+        L += ['close', 'open', 'snapcheck', 'tracecheck all']      # re-opened blob files are O_APPEND
+    for _ in range(rng.randrange(1, 4)):
+        ln = rng.choice([5, 40, 3000, 100000])
+        act = rng.choice(['short:1', 'short:30', 'short:61', 'short:69', 'short:%d' % rng.randrange(1, 70 + ln), 'ENOSPC', 'EIO'])
+        L.append('fail append .blob %d %s' % (rng.choice([0, 0, 1]), act))
+        w(ln)
+        w()
+        L.append('clearfail')
+        for _ in range(rng.randrange(1, 3)):
+            w()
+        if rng.random() < 0.3:
+            L += [rng.choice(['close_active', 'force_update always']), 'snapcheck', 'tracecheck all']
+    L += ['close', 'snapcheck', 'tracecheck all', 'open', 'snapcheck', 'tracecheck all']
+    w()
+    return '\n'.join(L) + '\n'
+
+
+def gen_quarantine_script(rng):
+    """Restarts that quarantine a torn blob (also the one with the highest id), new blobs created afterwards, a
+    second quarantine: ids are never handed out twice and quarantined files keep their bytes."""
+    K = 4
+    L = ['cfg K=4 dup=1 group=2 bloom=none init=eager runtime=%s nomodel=1 validate=%d' % (rng.choice(['mt', 'ct']), rng.choice([0, 1])), 'trace on', 'open']
+    seed = 0
+    def w():
+        nonlocal seed
+        seed += 1
+        L.append('W %s 5 - %d %d' % ((seed % 5 + 1).to_bytes(K, 'big').hex(), rng.choice([5, 40, 300]), seed))
+        L.extend(['snapcheck', 'tracecheck all'])
+    nb = rng.choice([1, 2, 2, 3])
+    for b in range(nb):
+        for _ in range(rng.randrange(1, 3)):
+            w()
+        if b < nb - 1:
+            L += ['close_active', 'snapcheck', 'tracecheck all']
+    next_id = nb
+    for rnd in range(rng.choice([1, 2, 2])):
+        L.append('close')
+        victim = next_id - 1 if rng.random() < 0.7 else rng.randrange(0, next_id)
+        L.append('trunc blob %d %s' % (victim, rng.choice(['-1', '-3', '-20', '-110', '25', '19'])))
+        if rng.random() < 0.3:
+            L.append('rmindex %d' % victim)
+        L += ['open', 'snapcheck', 'tracecheck all', 'ls']
+        for _ in range(rng.randrange(1, 3)):
+            L += [rng.choice(['close_active', 'create_active', 'force_update always']), 'snapcheck', 'tracecheck all']
+            w()
+            next_id += 1
+    L += ['close', 'snapcheck', 'tracecheck all', 'ls']
+    return '\n'.join(L) + '\n'
+
+
 def gen(tier, rng):
     n = 200 if tier == 'quick' else 4000
-    return [('harm%05d' % i, gen_script(rng)) for i in range(n)]
+    out = [('harm%05d' % i, gen_script(rng)) for i in range(n)]
+    out += [('fault%05d' % i, gen_fault_script(rng)) for i in range(n // 2)]
+    out += [('quar%05d' % i, gen_quarantine_script(rng)) for i in range(n // 2)]
+    return out
 
 
 def oracle(lines, io, spec=None):
